@@ -46,6 +46,13 @@ type c20Marsh struct{ X int }
 
 func (m c20Marsh) MarshalValue() data.Value { return data.String(fmt.Sprintf("marshaled-%d", m.X)) }
 
+// c20Stamp embeds time.Time: every method of time.Time (MarshalText, MarshalJSON, String, ...) is promoted to it.
+type c20Stamp struct {
+	time.Time
+	Note string
+	Seq  int
+}
+
 // c20PtrMarsh has its marshaler on the pointer: only *c20PtrMarsh is a data.Marshaler.
 type c20PtrMarsh struct{ X int }
 
@@ -402,10 +409,21 @@ func (g *c20gen) value(depth int) (interface{}, exp) {
 	case 11:
 		// two different struct types that print the same type name (types local to two functions)
 		g.kinds["same-named-struct-types"] = true
-		if g.r.Bool() {
+		switch g.r.Intn(3) {
+		case 0:
 			return g.rowA()
+		case 1:
+			return g.rowB()
 		}
-		return g.rowB()
+		// a struct that embeds time.Time next to fields of its own (and so inherits all of its methods): still a struct
+		g.kinds["struct-embedding-time"] = true
+		t, te := g.timeVal()
+		st := c20Stamp{Time: t, Note: g.str(), Seq: g.r.Intn(100)}
+		se := exp{kind: "map", m: map[string]exp{g.key("Time"): te, g.key("Note"): {kind: "string", s: st.Note}, g.key("Seq"): {kind: "int", i: int64(st.Seq)}}}
+		if g.r.Bool() {
+			return &st, se
+		}
+		return st, se
 	default:
 		g.kinds["struct-nested"] = true
 		return g.outer(depth - 1)
@@ -759,7 +777,7 @@ func init() {
 		Floors: func(obs map[string]int64, cells map[string]bool, tier string) []string {
 			var why []string
 			for _, k := range []string{"nil", "bool", "int", "int8", "int16", "int32", "int64", "uint", "uint8", "uint16", "uint32", "uint64", "float32", "float64", "string", "time", "*time",
-				"marshaler", "*marshaler", "pointer-receiver-marshaler", "nil-pointer", "[]interface{}", "[]int", "nil-slice", "map[string]interface{}", "map[string]int", "nil-map", "struct", "*struct", "**struct", "struct-nested", "named-primitive-marshaler", "[]named-primitive-marshaler", "shared-pointer", "same-named-struct-types"} {
+				"marshaler", "*marshaler", "pointer-receiver-marshaler", "nil-pointer", "[]interface{}", "[]int", "nil-slice", "map[string]interface{}", "map[string]int", "nil-map", "struct", "*struct", "**struct", "struct-nested", "named-primitive-marshaler", "[]named-primitive-marshaler", "shared-pointer", "same-named-struct-types", "struct-embedding-time"} {
 				if !cells["kind:"+k] {
 					why = append(why, "Go kind never generated: "+k)
 				}
